@@ -519,6 +519,30 @@ class Translator:
     def E_CXXNullPtrLiteralExpr(self, n, cx): return 'NULL'
     def E_CXXThisExpr(self, n, cx): return cx.self_expr
 
+    def enum_by_owner(self, r):
+        """enumerator of an unnamed enum inside a (trait) class template specialisation that lives in another AST dump:
+        found by the owner's name, which the enumerator's type spells out"""
+        m = re.match(r'^(.*)::\((unnamed|anonymous) enum at ', strip_ns(r.get('type', {}).get('qualType', '')))
+        if not m: return None
+        owner = m.group(1).split('::')[-1] if '<' not in m.group(1) else m.group(1)[m.group(1).rfind('::', 0, m.group(1).index('<')) + 2:]
+        if not hasattr(self, '_enum_idx'):
+            self._enum_idx = {}
+            def walk(n, owner):
+                if not isinstance(n, dict): return
+                k = n.get('kind')
+                if k == 'ClassTemplateSpecializationDecl':
+                    targs = [strip_ns(a.get('type', {}).get('qualType', '')) for a in n.get('inner', []) if a.get('kind') == 'TemplateArgument']
+                    owner = n.get('name', '') + '<' + ', '.join(targs) + '>'
+                elif k == 'CXXRecordDecl' and n.get('name') and n.get('completeDefinition'):
+                    owner = n['name']
+                if k == 'EnumConstantDecl' and owner:
+                    for c in n.get('inner', []):
+                        v = self.const_value(c)
+                        if v is not None: self._enum_idx.setdefault((owner, n.get('name')), v)
+                for c in n.get('inner', []): walk(c, owner)
+            for d in self.docs: walk(d, None)
+        return self._enum_idx.get((owner, r.get('name')))
+
     def E_DeclRefExpr(self, n, cx):
         r = n['referencedDecl']; rk = r['kind']
         if rk in ('ParmVarDecl', 'VarDecl'):
@@ -532,12 +556,17 @@ class Translator:
                     v = self.const_value(c)
                     if v is not None: return f'{v} /* {r["name"]} */'
             if r['name'].startswith('memory_order'): return '0 /* %s */' % r['name']
+            v = self.enum_by_owner(r)
+            if v is not None: return f'{v} /* {r["name"]} of a trait class, folded by clang */'
             raise Unsupported(f'enum constant {r["name"]} without value in {cx.cname}')
         raise Unsupported(f'DeclRefExpr to {rk} {r.get("name")} in {cx.cname}')
 
     def const_value(self, n):
-        if 'value' in n and n.get('kind') in ('ConstantExpr', 'IntegerLiteral'):
-            return n['value']
+        if 'value' in n and n.get('kind') in ('ConstantExpr', 'IntegerLiteral', 'CXXBoolLiteralExpr'):
+            v = n['value']
+            if v in (True, 'true'): return '1'
+            if v in (False, 'false'): return '0'
+            return v
         for c in n.get('inner', []):
             v = self.const_value(c)
             if v is not None: return v
